@@ -62,6 +62,10 @@ CHECKS = {
                 technique="bounded-exhaustive enumeration of definition programs over import-graph shapes x item placements, parsed by the real parser and compared with set semantics",
                 text="Every import-graph shape on <=4 files (chains, fans, diamond, repeated imports by different relative paths, sub-directory, same file name in two directories, cycle) x every ordered pair of files x every pair of kinds sharing the name space, every pair of message-id forms (message, signal, reserved int / 'a - b' / 'a to b'), module/host id clashes, range violations, clashes against the core definitions; and every conflict-free placement of up to 4 definitions: exact error class, exact registry, each file read once, CLI exit code.",
                 note="Trusted: ruamel.yaml duplicate-key detection. Every generated file defines at least one item (an empty YAML document is not treated as a definition file)."),
+    "C13": dict(engine="DEFX+CLX", level="exploration", ref="DESIGN.md 4/C13",
+                technique="bounded-exhaustive metamorphic enumeration (every single edit, every relocation) of message definitions hashed by the real parser; cross-language and cross-process comparison; wire observation of the real Client",
+                text="Base messages with 0-3 fields x every single edit (rename, id, field rename/retype/insert/delete/transpose, signal<->message) must give pairwise distinct hashes; every relocation (imported file, sub-directory, other file name, import order, comments/blank lines/unrelated definitions, core import, alignment options) must keep the hash; separate processes with different PYTHONHASHSEED/cwd agree; Python/C/JS/MATLAB outputs carry the same 32-bit value; the real Client stamps it into header.version for every generated and core class.",
+                note="Known finding (open): field-list reuse hashes the source's name, not its fields. send_signal(type_id) has no class at hand and sends version 0 (unspecified)."),
 }
 
 ALL = [f"C{i:02d}" for i in range(1, 20)]
